@@ -336,7 +336,9 @@ void __assert_fail(const char *expr, const char *file, unsigned line, const char
 }
 const char *__asan_default_options() {
   return "exitcode=66:abort_on_error=0:detect_leaks=0:allocator_may_return_null=1:handle_abort=0:"
-         "detect_stack_use_after_return=0:print_summary=1:max_malloc_fill_size=0";
+         // a bounded quarantine: the default 256 MB makes the (forking) worker's resident set grow to > 1 GB over a long
+         // run, and fork() cost grows with it; 32 MB is far more than one case frees
+         "detect_stack_use_after_return=0:print_summary=1:max_malloc_fill_size=0:quarantine_size_mb=32";
 }
 const char *__ubsan_default_options() { return "print_stacktrace=1:halt_on_error=1:exitcode=66"; }
 }
